@@ -16,6 +16,7 @@ import (
 	"go.minekube.com/gate/pkg/edition/java/proto/packet/plugin"
 	"go.minekube.com/gate/pkg/edition/java/proto/packet/tablist/playerinfo"
 	"go.minekube.com/gate/pkg/edition/java/proto/packet/title"
+	"go.minekube.com/gate/pkg/edition/java/proto/util"
 	"go.minekube.com/gate/pkg/edition/java/proto/version"
 	"go.minekube.com/gate/pkg/edition/java/proxy/crypto"
 	"go.minekube.com/gate/pkg/gate/proto"
@@ -44,7 +45,8 @@ func init() {
 	for _, n := range []string{
 		"packet.ServerLogin", "packet.Disconnect", "packet.ResourcePackRequest", "packet.ServerLinks", "packet.DialogShow",
 		"packet.TabCompleteResponse", "packet.HeaderAndFooter", "packet.ServerData", "bossbar.BossBar",
-		"title.Text", "title.Subtitle", "title.Actionbar", "title.Legacy", "chat.SystemChat", "playerinfo.Upsert"} {
+		"title.Text", "title.Subtitle", "title.Actionbar", "title.Legacy", "chat.SystemChat", "playerinfo.Upsert",
+		"packet.JoinGame", "packet.Respawn"} {
 		classes[n] = "opaque"
 	}
 }
@@ -153,6 +155,22 @@ func strs(xs []string) V {
 }
 
 func soundSourceV(s int) V { return Pair(I(int64(s)), U) }
+
+// tagV: the wire bytes of a binary tag: type, (below 1.20.2: an empty name,) payload
+func tagV(t util.BinaryTag, named bool) V {
+	b := []byte{t.Type}
+	if named {
+		b = append(b, 0, 0)
+	}
+	return X(append(b, t.Data...))
+}
+
+func deathPosV(d *packet.DeathPosition) V {
+	if d == nil {
+		return N
+	}
+	return S(T(XS(d.Key), I(d.Value)))
+}
 
 // Extract returns the schema-level value of p in the entry's context (what Gate.C04.schemaOf describes), or false when
 // the type has no schema.
@@ -400,6 +418,157 @@ func Extract(p proto.Packet, e Entry) (V, bool) {
 			out[i] = XS(o.Text)
 		}
 		return L(out...), true
+	case *packet.JoinGame:
+		b2 := func(b bool) int64 {
+			if b {
+				return 8
+			}
+			return 0
+		}
+		tag := func(t util.BinaryTag) V { return tagV(t, c.lt(version.Minecraft_1_20_2)) }
+		di := p.DimensionInfo
+		if di == nil {
+			di = &packet.DimensionInfo{}
+		}
+		ln := ""
+		if di.LevelName != nil {
+			ln = *di.LevelName
+		}
+		if c.ge(version.Minecraft_1_20_2) {
+			vs := []V{I(int64(p.EntityID)), B(p.Hardcore), strs(p.LevelNames), I(int64(p.MaxPlayers)), I(int64(p.ViewDistance)),
+				I(int64(p.SimulationDistance)), B(p.ReducedDebugInfo), B(p.ShowRespawnScreen), B(p.DoLimitedCrafting)}
+			if c.ge(version.Minecraft_1_20_5) {
+				vs = append(vs, I(int64(p.Dimension)))
+			} else {
+				vs = append(vs, XS(di.RegistryIdentifier))
+			}
+			vs = append(vs, XS(ln), I(p.PartialHashedSeed), I(int64(byte(p.Gamemode))), I(int64(byte(p.PreviousGamemode))),
+				B(di.DebugType), B(di.Flat), deathPosV(p.LastDeathPosition), I(int64(p.PortalCooldown)))
+			if c.ge(version.Minecraft_1_21_2) {
+				vs = append(vs, I(int64(p.SeaLevel)))
+			}
+			if c.ge(version.Minecraft_26_2) {
+				vs = append(vs, B(p.OnlineMode))
+			}
+			if c.ge(version.Minecraft_1_20_5) {
+				vs = append(vs, B(p.EnforcesSecureChat))
+			}
+			return T(vs...), true
+		}
+		if c.ge(version.Minecraft_1_16) {
+			vs := []V{I(int64(p.EntityID))}
+			if c.ge(version.Minecraft_1_16_2) {
+				vs = append(vs, B(p.Hardcore), I(int64(byte(p.Gamemode))))
+			} else {
+				vs = append(vs, I(int64(byte(p.Gamemode))|b2(p.Hardcore)))
+			}
+			vs = append(vs, I(int64(byte(p.PreviousGamemode))), strs(p.LevelNames), tag(p.Registry))
+			if c.ge(version.Minecraft_1_16_2) && c.lt(version.Minecraft_1_19) {
+				vs = append(vs, tag(p.CurrentDimensionData), XS(di.RegistryIdentifier))
+			} else {
+				vs = append(vs, XS(di.RegistryIdentifier), XS(ln))
+			}
+			vs = append(vs, I(p.PartialHashedSeed))
+			if c.ge(version.Minecraft_1_16_2) {
+				vs = append(vs, I(int64(p.MaxPlayers)))
+			} else {
+				vs = append(vs, I(int64(byte(p.MaxPlayers))))
+			}
+			vs = append(vs, I(int64(p.ViewDistance)))
+			if c.ge(version.Minecraft_1_18) {
+				vs = append(vs, I(int64(p.SimulationDistance)))
+			}
+			vs = append(vs, B(p.ReducedDebugInfo), B(p.ShowRespawnScreen), B(di.DebugType), B(di.Flat))
+			if c.ge(version.Minecraft_1_19) {
+				vs = append(vs, deathPosV(p.LastDeathPosition))
+			}
+			if c.ge(version.Minecraft_1_20) {
+				vs = append(vs, I(int64(p.PortalCooldown)))
+			}
+			return T(vs...), true
+		}
+		vs := []V{I(int64(p.EntityID)), I(int64(byte(p.Gamemode)) | b2(p.Hardcore))}
+		if c.ge(version.Minecraft_1_9_1) {
+			vs = append(vs, I(int64(p.Dimension)))
+		} else {
+			vs = append(vs, I(int64(byte(p.Dimension))))
+		}
+		if c.le(version.Minecraft_1_13_2) {
+			vs = append(vs, I(int64(byte(p.Difficulty))))
+		}
+		if c.ge(version.Minecraft_1_15) {
+			vs = append(vs, I(p.PartialHashedSeed))
+		}
+		lt := ""
+		if p.LevelType != nil {
+			lt = *p.LevelType
+		}
+		vs = append(vs, I(int64(byte(p.MaxPlayers))), XS(lt))
+		if c.ge(version.Minecraft_1_14) {
+			vs = append(vs, I(int64(p.ViewDistance)))
+		}
+		if c.ge(version.Minecraft_1_8) {
+			vs = append(vs, B(p.ReducedDebugInfo))
+		}
+		if c.ge(version.Minecraft_1_15) {
+			vs = append(vs, B(p.ShowRespawnScreen))
+		}
+		return T(vs...), true
+	case *packet.Respawn:
+		tag := func(t util.BinaryTag) V { return tagV(t, c.lt(version.Minecraft_1_20_2)) }
+		di := p.DimensionInfo
+		if di == nil {
+			di = &packet.DimensionInfo{}
+		}
+		ln := ""
+		if di.LevelName != nil {
+			ln = *di.LevelName
+		}
+		var vs []V
+		if c.ge(version.Minecraft_1_16) {
+			if c.ge(version.Minecraft_1_16_2) && c.lt(version.Minecraft_1_19) {
+				vs = append(vs, tag(p.CurrentDimensionData), XS(di.RegistryIdentifier))
+			} else {
+				if c.ge(version.Minecraft_1_20_5) {
+					vs = append(vs, I(int64(p.Dimension)))
+				} else {
+					vs = append(vs, XS(di.RegistryIdentifier))
+				}
+				vs = append(vs, XS(ln))
+			}
+		} else {
+			vs = append(vs, I(int64(p.Dimension)))
+		}
+		if c.le(version.Minecraft_1_13_2) {
+			vs = append(vs, I(int64(byte(p.Difficulty))))
+		}
+		if c.ge(version.Minecraft_1_15) {
+			vs = append(vs, I(p.PartialHashedSeed))
+		}
+		vs = append(vs, I(int64(byte(p.Gamemode))))
+		if c.ge(version.Minecraft_1_16) {
+			vs = append(vs, I(int64(byte(p.PreviousGamemode))), B(di.DebugType), B(di.Flat))
+			if c.lt(version.Minecraft_1_19_3) {
+				vs = append(vs, B(p.DataToKeep != 0))
+			} else if c.lt(version.Minecraft_1_20_2) {
+				vs = append(vs, I(int64(p.DataToKeep)))
+			}
+		} else {
+			vs = append(vs, XS(p.LevelType))
+		}
+		if c.ge(version.Minecraft_1_19) {
+			vs = append(vs, deathPosV(p.LastDeathPosition))
+		}
+		if c.ge(version.Minecraft_1_20) {
+			vs = append(vs, I(int64(p.PortalCooldown)))
+		}
+		if c.ge(version.Minecraft_1_21_2) {
+			vs = append(vs, I(int64(p.SeaLevel)))
+		}
+		if c.ge(version.Minecraft_1_20_2) {
+			vs = append(vs, I(int64(p.DataToKeep)))
+		}
+		return T(vs...), true
 	case *packet.HeaderAndFooter:
 		return T(compV(&p.Header, pv), compV(&p.Footer, pv)), true
 	case *packet.PlayerChatCompletion:
